@@ -1,6 +1,6 @@
 (* Model of emmet/markup/format/html.py, comment.py, template.py, utils.py, walk.py and
    the helper functions of output_stream.py.  Definitions only. *)
-From Emmet Require Import lib.Base model.MarkupTokenizer model.MarkupParser model.MarkupConvert model.OutStream.
+From Emmet Require Import lib.Base gen.GenHtmlTag model.MarkupTokenizer model.MarkupParser model.MarkupConvert model.OutStream.
 
 Record oconfig := mkOconfig {
   oc_fmt : ofmt;
@@ -311,9 +311,13 @@ Definition get_indent (c : oconfig) (parent : option anode) : Z :=
            end
   end%Z.
 
-(* starts_with_block_tag: value[0] is a str matching '<' [\w\-:]+ [\s>] whose name is not inline
-   (ASCII \w; \s = Python whitespace) *)
-Definition is_tagname_char (ch : char) : bool := is_word_char ch || (ch =? c_dash)%N || (ch =? c_colon)%N.
+(* starts_with_block_tag: value[0] is a str matching re_html_tag = '<' [\w\-:]+ [\s>] whose name is not inline.
+   In Python both \w and \s are the Unicode classes: the two classes are generated tables, probed from the compiled
+   regex with every code point (gen/GenHtmlTag.v by harness/gen_htmltag.py, which also checks the shape of the pattern
+   and that the classes are disjoint) *)
+Definition in_ranges (ch : char) (rs : list (N * N)) : bool := existsb (fun r => in_range (fst r) (snd r) ch) rs.
+Definition is_tagname_char (ch : char) : bool := in_ranges ch html_tag_name_ranges.
+Definition is_tag_end_char (ch : char) : bool := in_ranges ch html_tag_end_ranges.
 Definition starts_with_block_tag (c : oconfig) (value : list vtok) : bool :=
   match value with
   | VStr (lt :: r) :: _ =>
@@ -322,7 +326,7 @@ Definition starts_with_block_tag (c : oconfig) (value : list vtok) : bool :=
         match n, skipn n r with
         | S _, e :: _ =>
             (* greedy run then one terminator; the run cannot give a char back since terminators are not in the class *)
-            if is_py_space e || (e =? c_gt)%N then negb (is_inline_str c (firstn n r)) else false
+            if is_tag_end_char e then negb (is_inline_str c (firstn n r)) else false
         | _, _ => false
         end
       else false
